@@ -38,7 +38,7 @@ def obligations():
                                    'opus_repacketizer_out_range_impl:%d' % (ln + xp + 2), 'opus_repacketizer_cat_impl:%d' % (ln + 2), 'opus_packet_unpad:%d' % (ln + 2),
                                    'opus_multistream_packet_unpad:%d' % (ln + 2), 'opus_multistream_packet_pad:3'],
                         memwords=3, functions=['opus_multistream_packet_unpad', 'opus_repacketizer_out_range_impl'] + ([] if unpad_only else ['opus_multistream_packet_pad']),
-                        tier=tier, budget=(900 if tier == 'quick' else 1500),
+                        tier=(tier if unpad_only else 'thorough'), budget=(900 if tier == 'quick' else 1500),
                         bounds='any 2-stream packet of exactly %d bytes, at most %d frames per stream%s; new_len = len..len+%d' % (ln, cm, '' if unpad_only else ', last stream without a padding flag', 0 if unpad_only else xp)))
     # out_range with extension-carrying padding (shared harness with C16-H3): result <= maxlen, exact refusal, frames preserved, extension area placement
     for f, ol, pat, bg, en, tier in ((3, 24, (1, 1, 1, 0), 0, 3, 'quick'), (3, 24, (0, 2, 1, 0), 1, 2, 'quick'), (4, 300, (1, 0, 2, 1), 1, 4, 'thorough')):
